@@ -53,19 +53,35 @@ pub struct CaseRun {
 }
 
 pub fn run_case(case: &AxCase, arch: Arch, info: &ArchInfo, heap_monitor: bool) -> CaseRun {
+    run_case_opts(case, arch, info, heap_monitor, true, None)
+}
+
+/// Output of the repository's own pipeline (as opposed to programs built by this harness)?
+pub fn is_pipeline_output(name: &str) -> bool {
+    name.starts_with("fun/") || name.starts_with("nl/") || name.starts_with("core/")
+}
+
+/// `require_linear = false` runs the program even if it violates the ordered-linear discipline
+/// (end-to-end observations such as the footprint of compiled loops do not depend on that premise).
+pub fn run_case_opts(case: &AxCase, arch: Arch, info: &ArchInfo, heap_monitor: bool, require_linear: bool, reference_override: Option<crate::sem::ax::Trace>) -> CaseRun {
     let mut out = CaseRun { verdict: Verdict::Match, fault: None, boundaries: 0, ref_steps: 0, insns: 0, prints: 0, heap: None };
-    if let Err(e) = check_linear_prog(&case.prog) {
+    if !require_linear {
+        // nothing to check up front
+    } else if let Err(e) = check_linear_prog(&case.prog) {
         // programs built by this harness must be linearly well-typed; programs that come out of the
         // repository's linearizer may not be (that is C05's business) and are then outside the
         // premise of the code-generation properties
-        out.verdict = if case.name.starts_with("fun/") {
+        out.verdict = if is_pipeline_output(&case.name) {
             Verdict::Skip(format!("precondition: the pipeline's linearized program is not linearly well-typed ({e})"))
         } else {
             Verdict::Machinery(format!("generated program {} is not linearly well-typed: {e}", case.name))
         };
         return out;
     }
-    let reference = run_positional(&case.prog, 0, &case.args, 200_000);
+    let reference = match reference_override {
+        Some(t) => t,
+        None => run_positional(&case.prog, 0, &case.args, 200_000),
+    };
     out.ref_steps = reference.steps;
     let text = match codegen(case.prog.clone(), arch) {
         Ok((t, _)) => t,
